@@ -101,6 +101,10 @@ impl PayloadWriter {
             // of the last metric, since the previous parts of the buffer are still valid and could be flushed.
             self.buf.truncate(self.last_offset());
 
+            // Truncating also removed the placeholder for the length prefix of the payload we just abandoned, so put
+            // it back for the next payload.
+            self.prepare_for_write();
+
             return false;
         }
 
